@@ -65,7 +65,7 @@ Example C06_nonvacuous_samples :
     [OSamples [1; -1; 2; -2; 3]%Z; OUnit; OSamples [8; -8]%Z; OUnit; OSamples [3; -3]%Z; OUnit; OSamples [];
      OErr EOther; OSamples []; OUnit; OItem (Some 1%Z)].
 Proof.
-  split; [exact ex_file_valid|]. split; [vm_compute; repeat constructor; discriminate|].
+  split; [exact ex_file_valid|]. split; [forall_trace|].
   vm_compute. reflexivity.
 Qed.
 
@@ -76,7 +76,7 @@ Example C06_nonvacuous_bytes :
     [OBytes [1; 0; 255; 255; 2]; OPos 28; OBytes [8; 0; 248; 255]; OPos 1; OBytes [0; 255; 255]; OPos 4;
      OErr EEof; OBytes []; OPos 32; OBytes []; OErr EIo; OErr EIo].
 Proof.
-  split; [vm_compute; repeat constructor; try discriminate; try (intros H; discriminate H)|].
+  split; [forall_trace|].
   split; vm_compute; reflexivity.
 Qed.
 
@@ -85,7 +85,7 @@ Example C06_nonvacuous_channels :
   outs (snd (chan_run (ex_file Repaired) ex_chan_ops)) =
     [OChans [[1; 2; 3]; [-1; -2; -3]]%Z; OUnit; OChans [[3]; [-3]]%Z; OUnit; OChans [[8]; [-8]]%Z; OUnit;
      OChans [[]; []]; OChans [[]; []]; OUnit; OChans [[5; 6]; [-5; -6]]%Z; OErr EOther; OChans [[]; []]].
-Proof. split; [vm_compute; repeat constructor; discriminate|]. vm_compute. reflexivity. Qed.
+Proof. split; [forall_trace|]. vm_compute. reflexivity. Qed.
 
 (* ---- the defects of the original revision, as computations on the model *)
 (* F-C06a: End(0) on a 32-byte stream answers 8 (the sample count) *)
